@@ -9,7 +9,7 @@ from typing import Dict, List, Optional, Tuple
 from ..cfg import cfg_of
 from ..model import AnalysisError, FunctionInfo, bind_args
 from ..roles import roles_of
-from ..terms import call_name, canon, conjuncts, const_num, linear, norm_stmt
+from ..terms import call_name, canon, conjuncts, const_num, guard_of, linear, norm_stmt
 from .common import int_le_form, iter_stores, kw, reaching_assignments
 
 EXPLANATION = (
@@ -74,6 +74,29 @@ def finite_values(e: ast.AST, sym: str) -> Optional[List[Tuple[Fraction, Fractio
                     return None
         return sorted(set(out))
     return None
+
+
+def _poll_filter_drops(ctx, prog, R, poll):
+    """A projected candidate is no longer incumbent + mesh_size * direction.  The poll step calls the candidate filter with
+    the projection flag False; inside the filter the clamp of the candidates must be executed exactly when that flag is true
+    (guard == the flag parameter, nothing or-ed to it)."""
+    from .points import FilterSummary
+
+    fs = FilterSummary(prog, R)
+    calls = [c for c, tg in prog.calls_in(poll) if fs.fn in tg]
+    if not calls or fs.p_proj is None:
+        ctx.undecided("the poll step does not call the candidate filter with a projection flag")
+        ctx.rules["R7"].floor = 0
+        return
+    for c in calls:
+        b = bind_args(fs.fn, c)
+        a = b.get(fs.p_proj)
+        ctx.check(isinstance(a, ast.Constant) and a.value is False, poll, c, "poll step passes projection = False", f"the poll step asks the filter to project out-of-box candidates onto the box (flag {canon(a) if a is not None else 'default'}): projected points are not on the poll stencil", construct="poll filter projection flag")
+    for st in fs.stages:
+        if st.kind == "box-clamp":
+            tests = [(t, pol) for t, pol in guard_of(prog, fs.fn, st.stmt)]
+            exact = len(tests) == 1 and tests[0][1] and canon(tests[0][0]) == fs.p_proj
+            ctx.check(exact, fs.fn, st.stmt, f"projection executed iff {fs.p_proj}", f"the filter projects candidates onto the box under '{' and '.join(canon(t, neg=not p_) for t, p_ in tests) or 'no guard'}', not exactly when its projection flag is set: poll candidates beyond a bound are moved onto it (and evaluated off the stencil) instead of being dropped", construct="filter projection guard")
 
 
 def check(ctx):
@@ -252,6 +275,10 @@ def check(ctx):
             okg = canon(c.args[1]) in ("OS[search_mesh_size]", "self.search_mesh_size")
             ctx.check(okg, poll, c, "poll candidates snapped to the search mesh", f"poll candidates are snapped to a grid of size '{canon(c.args[1])}', not the search mesh: evaluated points are displaced by up to half of that cell from incumbent + mesh_size * direction",
                       construct=f"poll candidates forced to grid {canon(c.args[1])}")
+
+    # ------------------------------------------------------------------ R7
+    ctx.rule("R7", "out-of-box poll candidates are dropped, never projected: the filter's projection branch is selected by the flag the poll step passes as False", floor=1)
+    _poll_filter_drops(ctx, prog, R, poll)
 
     # ------------------------------------------------------------------ R4
     ctx.rule("R4", "polled row deleted and counter advanced on every evaluating path; loop bounded by 2*D; basis generated once", floor=4)
